@@ -444,4 +444,123 @@ Proof.
   rewrite E in Hb. cbn [br_ok] in Hb. destruct Hb as (Hns & _). congruence.
 Qed.
 
+(* ------------------------------------------------------------------ every event *)
+(* the invariant of a trace: the extended joint invariant and the clock bound *)
+Definition tinv (s : vsock) : Prop := vs_x ti tm 0 qT s /\ 0 <= v_env_now s <= SAMPLE_BOUND.
+
+Definition op_clock_ok (o : vop) : Prop :=
+  match o with VoSetNow t => 0 <= t <= SAMPLE_BOUND | _ => True end.
+
+(* strict reading: the transport never answers EMSGSIZE to this poll *)
+Definition op_ef (s : vsock) (o : vop) : Prop :=
+  match o with
+  | VoPoll sc => strict = true -> script_legit sc = true /\ v_emsg_limit s = None
+  | _ => True
+  end.
+
+Definition out_ok (s s' : vsock) (out : vout) : Prop :=
+  match out with
+  | VrPoll r _ _ _ => ret_ok (envp s) s' r
+  | _ => tinv s'
+  end.
+
+Lemma vstep_app_sx (s : vsock) o :
+  sx qT s -> (forall sc, o <> VoPoll sc) ->
+  let '(s', out, _, _) := vstep cci s o in
+  sx qT s' /\ (forall r a b c, out <> VrPoll r a b c) /\
+  v_env_now s' = match o with VoSetNow t => t | _ => v_env_now s end /\
+  v_emsg_limit s' = match o with VoSetLimit m => m | _ => v_emsg_limit s end.
+Proof.
+  intros Hsx Hnp.
+  assert (Hfin : forall (s' : vsock) out e l,
+            sx qT s' -> (forall r a b c, out <> VrPoll r a b c) -> v_env_now s' = e -> v_emsg_limit s' = l ->
+            sx qT s' /\ (forall r a b c, out <> VrPoll r a b c) /\ v_env_now s' = e /\ v_emsg_limit s' = l) by auto.
+  destruct o; cbn [vstep]; try (exfalso; eapply Hnp; reflexivity).
+  - apply Hfin; [exact Hsx|discriminate|reflexivity|reflexivity].
+  - apply Hfin; [exact Hsx|discriminate|reflexivity|reflexivity].
+  - destruct (v_inbox_closed s); (apply Hfin; [exact Hsx|discriminate|reflexivity|reflexivity]).
+  - apply Hfin; [exact Hsx|discriminate|reflexivity|reflexivity].
+  - destruct (writer_dropped (v_tx s)); [apply Hfin; [exact Hsx|discriminate|reflexivity|reflexivity]|].
+    destruct (poll_write (v_tx s) buf) as [[tx1 r] w]. apply Hfin; [exact Hsx|discriminate|reflexivity|reflexivity].
+  - destruct (writer_dropped (v_tx s)); [apply Hfin; [exact Hsx|discriminate|reflexivity|reflexivity]|].
+    destruct (poll_flush (v_tx s)) as [[tx1 r] w]. apply Hfin; [exact Hsx|discriminate|reflexivity|reflexivity].
+  - destruct (writer_dropped (v_tx s)); [apply Hfin; [exact Hsx|discriminate|reflexivity|reflexivity]|].
+    destruct (poll_shutdown (v_tx s)) as [[tx1 r] w]. apply Hfin; [exact Hsx|discriminate|reflexivity|reflexivity].
+  - destruct (reader_dropped (v_rx s)); [apply Hfin; [exact Hsx|discriminate|reflexivity|reflexivity]|].
+    destruct (rx_read (v_rx s) n) as [[rx1 r] w]. apply Hfin; [exact Hsx|discriminate|reflexivity|reflexivity].
+  - destruct (reader_dropped (v_rx s)); [apply Hfin; [exact Hsx|discriminate|reflexivity|reflexivity]|].
+    destruct (rx_drop_reader (v_rx s)) as [rx1 w]. apply Hfin; [exact Hsx|discriminate|reflexivity|reflexivity].
+  - destruct (drop_writer (v_tx s)) as [tx1 w]. apply Hfin; [exact Hsx|discriminate|reflexivity|reflexivity].
+Qed.
+
+Lemma vstep_x_app (s : vsock) o :
+  tinv s -> op_clock_ok o -> (forall sc, o <> VoPoll sc) ->
+  let '(s', out, _, _) := vstep cci s o in out_ok s s' out.
+Proof.
+  intros [Hx Hclk] Hoc Hnp.
+  pose proof (vstep_app_inv cci ti tm s o (proj1 Hx) Hnp) as Hi.
+  pose proof (vstep_app_sx s o (proj2 Hx) Hnp) as Hs.
+  destruct (vstep cci s o) as [[[s' out] dw] sw]. destruct Hs as (S1 & S2 & S3 & S4).
+  destruct out; [| exfalso; eapply S2; reflexivity | | |];
+    cbn [out_ok]; (split; [split; [exact Hi|exact S1]|]); rewrite S3; destruct o; try exact Hclk; exact Hoc.
+Qed.
+
+Theorem vstep_x (s : vsock) o :
+  tinv s -> op_clock_ok o -> op_ef s o ->
+  let '(s', out, _, _) := vstep cci s o in out_ok s s' out.
+Proof.
+  intros Ht Hoc Hoe.
+  destruct o as [t|m|sc|m| |buf| | |n| |]; try (apply vstep_x_app; [exact Ht|exact Hoc|discriminate]).
+  destruct Ht as [Hx Hclk]. cbn [vstep].
+  pose proof (poll_x (set_sends s sc)) as Hp.
+  destruct (poll cci (set_sends s sc)) as [s' r]. cbn [out_ok]. apply Hp; [exact Hx|exact Hclk|].
+  intro Hs. cbn [op_ef] in Hoe. destruct (Hoe Hs) as [H1 H2]. split; vsimpl; assumption.
+Qed.
+
+(* a poll that returned Pending, or any other event, leaves a state the next event can start from *)
+Lemma out_ok_next (s s' : vsock) out :
+  tinv s -> out_ok s s' out -> poll_finished out = false -> tinv s'.
+Proof.
+  intros [_ Hclk] Ho Hf. destruct out as [|r pk w a| | |]; cbn [out_ok] in Ho; try exact Ho.
+  destruct r; cbn [poll_finished] in Hf; try discriminate.
+  cbn [ret_ok] in Ho. destruct Ho as [Hx He]. split; [exact Hx|].
+  unfold envp in He. injection He as He _. rewrite He. exact Hclk.
+Qed.
+
+Lemma vstep_limit (s : vsock) o :
+  tinv s ->
+  let '(s', out, _, _) := vstep cci s o in
+  out_ok s s' out -> poll_finished out = false ->
+  v_emsg_limit s' = match o with VoSetLimit m => m | _ => v_emsg_limit s end.
+Proof.
+  intros [Hx Hclk].
+  assert (Happ : (forall sc, o <> VoPoll sc) ->
+            let '(s', out, _, _) := vstep cci s o in
+            out_ok s s' out -> poll_finished out = false ->
+            v_emsg_limit s' = match o with VoSetLimit m => m | _ => v_emsg_limit s end).
+  { intro Hnp. pose proof (vstep_app_sx s o (proj2 Hx) Hnp) as Hs.
+    destruct (vstep cci s o) as [[[s' out] dw] sw]. destruct Hs as (S1 & S2 & S3 & S4). intros _ _. exact S4. }
+  destruct o as [t|m|sc|m| |buf| | |n| |]; try (apply Happ; discriminate).
+  cbn [vstep]. destruct (poll cci (set_sends s sc)) as [s' r]. cbn [out_ok poll_finished].
+  intros Ho Hf. destruct r; try discriminate. destruct Ho as [_ He]. unfold envp in He.
+  injection He as _ He. exact He.
+Qed.
+
+(* what ret_ok says about the result alone *)
+Lemma ret_ok_result e0 (s' : vsock) r :
+  ret_ok e0 s' r ->
+  r <> PollPanic /\
+  (forall b, r = PollReadyErr (ErrBug b) -> b = BugEmsgSizeNoProbe /\ strict = false).
+Proof.
+  destruct r as [| |e|]; cbn [ret_ok]; intro H.
+  - split; [discriminate|intros b Hb; discriminate].
+  - split; [discriminate|intros b Hb; discriminate].
+  - split; [discriminate|]. intros b Hb. injection Hb as ->. destruct H as [Ha _]. cbn [allowed] in Ha.
+    destruct b; try (exfalso; exact Ha). split; [reflexivity|exact Ha].
+  - destruct H.
+Qed.
+
+Lemma x_inv p q (s : vsock) : vs_x ti tm p q s -> vs_inv_p ti tm p s.
+Proof. intros [H _]. exact H. Qed.
+
 End Poll.
